@@ -217,6 +217,9 @@ def rand_section(R, lang, allow_default, p=0.5):
         m["custom_map"] = {"p": R.randint(0, 3), "q": {"r": R.randint(0, 3)}}
     if R.random() < 0.15:
         m["named_values"] = {"extra_%d" % R.randint(0, 2): "v%d" % R.randint(0, 9)}
+    if R.random() < 0.25:
+        # list-valued keys: lists are replaced as a whole by a later source; nobody may grow or share them
+        m["reserved_identifiers"] = R.choice([["payloadq"], ["payloadq", "otherq"], []])
     return m
 
 
@@ -318,6 +321,32 @@ def part_b(ctx, ncases):
             continue
         if rep["extension"] != exp.get("extension"):
             ctx.refute(None, "Language.extension differs from reference precedence", dict(witness, got=rep["extension"], expected=exp.get("extension")))
+            continue
+        # using the context (identifiers filtered for the target and for every other supported language) changes neither what it
+        # reports nor the documents it was built from
+        try:
+            for probe in ("payloadq", "if", "x y"):
+                lctx.filter_id_for_target(probe, "any")
+            for other in lctx.get_supported_languages().values():
+                try:
+                    other.filter_id(other, "payloadq") if False else None
+                    getattr(other, "get_token_encoder", lambda: None)()
+                except Exception:
+                    pass
+            import nunavut.lang.py as _lpy
+            import nunavut.lang.c as _lc
+            for mod, lname in ((_lpy, "py"), (_lc, "c")):
+                try:
+                    mod.filter_id(lctx.get_language(lname), "payloadq")
+                except Exception:
+                    pass
+        except Exception as e:
+            ctx.count("context_use_raised[%s]" % type(e).__name__)
+        ctx.count("contexts_used_then_reread")
+        rep2 = context_reports(lctx)
+        if rep2 != rep:
+            diff = {k: (rep.get(k), rep2.get(k)) for k in rep if rep.get(k) != rep2.get(k)}
+            ctx.refute(None, "what a context reports changed by using it (filtering identifiers)", dict(witness, diff=str(diff)[:600]))
             continue
         if marked(over) != snap_over:
             ctx.refute(None, "override document passed to the builder was modified", dict(witness, now=marked(over)))
